@@ -15,7 +15,7 @@ EXPLANATION = (
     "ArgMatches::default(). R11.4 name twins agree: Command::_build_subcommand (per parse) and "
     "Command::_build_bin_names_internal (build()) compute a subcommand's usage_name / bin_name from the parent's bin_name "
     "and its display_name from the parent's display_name, and _build_subcommand assigns usage_name and bin_name on every "
-    "path (never skipped for an already-built subcommand). R11.5 clones are faithful: every Clone impl of a clap_builder type is derive-generated, or (hand-written) builds the value field by field from clone()/copies of the same fields of self, or is in the reviewed list (ValueParser: re-boxes the inner parser through clone_any) — a clone that drops build-time state (e.g. the key cache while the Built flag is copied) parses differently from its original. NOT decided: equality of results across histories."
+    "path (never skipped for an already-built subcommand). R11.5 clones are faithful: every Clone impl of a clap_builder type is derive-generated, or (hand-written) builds the value field by field from clone()/copies of the same fields of self, or is in the reviewed list (ValueParser: re-boxes the inner parser through clone_any) — a clone that drops build-time state (e.g. the key cache while the Built flag is copied) parses differently from its original. R11.6 a one-shot (Built-guarded) computation must not depend on a parameter that differs between its callers: whoever builds first would decide the result for everybody (memoisation without the parameter in the key). NOT decided: equality of results across histories."
 )
 TRUSTED = ["rustc MIR", "clapfacts", "call graph with trait fan-out"]
 ASSUMPTIONS = ["user closures (value parsers, deferred commands) are deterministic"]
@@ -237,3 +237,42 @@ def run(ctx):
         res.check(okf, "R11.5", "manual-clone|" + base, sp_str(im["span"]), "hand-written Clone is field-wise", "hand-written Clone for %s is not a faithful copy: %s" % (base, why))
     res.floor("R11.5", "Clone impls in clap_builder", ncl, 60)
     res.ok("R11.5", "derived-clones", "clap_builder", "%d Clone impls inspected" % ncl)
+
+
+    # ---- R11.6 the one-shot build is parameterised: do all callers pass the same value?
+    used_in_region = []
+    for c in bs.calls():
+        if has_bool(bs, c.bb, "F", built_guard):
+            for k, a in enumerate(c.args):
+                e = expr(bs, a)
+                if re.fullmatch(r"[a-z_]+", e) and e in [n for (t, n) in bs.locals[1:bs.argc + 1]] and e != "self":
+                    used_in_region.append((e, c))
+    for pname in sorted(set(p for p, _ in used_in_region)):
+        pidx = [n for (t, n) in bs.locals].index(pname)
+        vals = {}
+        work = [(bs, pidx)]
+        seen = set()
+        while work:
+            tb, ti = work.pop()
+            if (tb.q, ti) in seen:
+                continue
+            seen.add((tb.q, ti))
+            for b in fx.bodies(r"^clap_"):
+                for c in b.calls():
+                    if c.callee_q != tb.q or ti - 1 >= len(c.args):
+                        continue
+                    a = c.args[ti - 1]
+                    v = op_int(a)
+                    if v is not None:
+                        vals.setdefault(v, []).append(b.q.rsplit("::", 1)[1])
+                    else:
+                        nm = expr(b, a)
+                        names = [n for (t, n) in b.locals]
+                        if nm in names and 1 <= names.index(nm) <= b.argc:
+                            work.append((b, names.index(nm)))
+                        else:
+                            vals.setdefault("?" + nm, []).append(b.q.rsplit("::", 1)[1])
+        where_ = [c for p, c in used_in_region if p == pname][0]
+        res.check(len(vals) <= 1, "R11.6", "build-parameter-differs|" + pname, where_.where(), "every caller of the one-shot build passes the same `%s`" % pname,
+                  "the Built-guarded region of _build_self depends on `%s`, and callers pass different values (%s): what the first caller builds (e.g. the shape of the generated `help` subcommand) is kept for everybody, so a definition that was parsed before renders differently from a fresh one" % (
+                      pname, "; ".join("%s from %s" % (k, sorted(set(v))[:4]) for k, v in sorted(vals.items(), key=lambda kv: str(kv[0])))))
